@@ -432,6 +432,140 @@ theorem group_mem {io : Nat → Option Nat} {ordered : List (Nat × String)} {g 
   simp only [groupByGraph, List.mem_map, List.mem_eraseDups, List.mem_filterMap]
   exact ⟨g, ⟨(v, n), hp, hio⟩, rfl⟩
 
+/-- the phases after a successful validation: no exception, and the assignment is applied -/
+theorem applyRename_spec (w : World) (pairs ordered : List (Nat × String)) (hok : InitsOk w)
+    (hd : dedupPairs pairs [] = some ordered) (hval : validateAll w (groupByGraph w.initOf ordered) = true) :
+    (applyRename w ordered).2 = false
+    ∧ (∀ p ∈ pairs, (applyRename w ordered).1.vname p.1 = some p.2)
+    ∧ (∀ u, u ∉ pairs.map (·.1) → (applyRename w ordered).1.vname u = w.vname u)
+    ∧ (applyRename w ordered).1.nname = w.nname
+    ∧ (applyRename w ordered).1.initOf = w.initOf
+    ∧ InitsOk (applyRename w ordered).1
+    ∧ ∀ g u, u ∈ (applyRename w ordered).1.inits g ↔ u ∈ w.inits g := by
+  unfold applyRename
+  simp only
+  -- the deduplicated assignment
+  obtain ⟨hnd, hmem⟩ := dedupPairs_spec pairs [] ordered hd (by simp)
+  have hmem' : ∀ p, p ∈ ordered ↔ p ∈ pairs := fun p => by rw [hmem p]; simp
+  -- the renamed initializers
+  generalize hT : initTriples (groupByGraph w.initOf ordered) = T
+  have hTmem : ∀ g v n, (g, v, n) ∈ T ↔ ((v, n) ∈ ordered ∧ w.initOf v = some g) := by
+    intro g v n; rw [← hT]; exact mem_initTriples
+  have hTnd : (T.map (·.2.1)).Nodup := by rw [← hT]; exact initTriples_nodup hnd
+  -- what validation established
+  have hvalid : ∀ t ∈ T, validateLoop (w.dicts t.1)
+      ((ordered.filter (fun p => w.initOf p.1 == some t.1)).map (·.1))
+      (ordered.filter (fun p => w.initOf p.1 == some t.1)) [] = true := by
+    intro t ht
+    obtain ⟨g, v, n⟩ := t
+    obtain ⟨h1, h2⟩ := (hTmem g v n).mp ht
+    have := List.all_eq_true.mp hval _ (group_mem h1 h2)
+    simpa using this
+  have hin : ∀ t ∈ T, (t.2.1, t.2.2) ∈ ordered.filter (fun p => w.initOf p.1 == some t.1) := by
+    intro t ht
+    obtain ⟨g, v, n⟩ := t
+    obtain ⟨h1, h2⟩ := (hTmem g v n).mp ht
+    exact List.mem_filter.mpr ⟨h1, by simpa using h2⟩
+  -- phase 1
+  obtain ⟨w1, e1, ok1, v1, n1, i1, d1⟩ := popAll_spec T hok
+    (fun t ht => by obtain ⟨g, v, n⟩ := t; exact ((hTmem g v n).mp ht).2) hTnd
+  -- phase 2
+  have hio1 : ∀ p ∈ ordered, w1.initOf p.1 = none := by
+    intro p hp
+    rw [i1 p.1]
+    split
+    · rfl
+    · rename_i hnot
+      cases hio : w.initOf p.1 with
+      | none => rfl
+      | some g =>
+        exfalso; apply hnot
+        exact List.mem_map.mpr ⟨(g, p.1, p.2), (hTmem g p.1 p.2).mpr ⟨hp, hio⟩, rfl⟩
+  obtain ⟨w2, e2, n2, i2, d2, a2, o2⟩ := setAll_spec ordered hio1 hnd
+  have ok2 : InitsOk w2 := by
+    refine ⟨?_, fun g => by rw [d2]; exact ok1.keys_nodup g, fun v g hv => by rw [d2]; exact ok1.complete v g (i2 ▸ hv)⟩
+    intro g k u hm
+    rw [d2] at hm
+    have hk := ok1.key_name g k u hm
+    have hu : u ∉ ordered.map (·.1) := by
+      intro hu
+      obtain ⟨p, hp, rfl⟩ := List.mem_map.mp hu
+      rw [hio1 p hp] at hk; exact absurd hk.2.2 (by simp)
+    exact ⟨by rw [o2 u hu]; exact hk.1, hk.2.1, by rw [i2]; exact hk.2.2⟩
+  -- phase 3
+  have hpre3 : ∀ t ∈ T, w2.initOf t.2.1 = none ∧ w2.vname t.2.1 = some t.2.2 ∧ t.2.2 ≠ ""
+      ∧ ∀ u, (t.2.2, u) ∉ w2.dicts t.1 := by
+    intro t ht
+    have hv := validateLoop_spec _ _ _ _ (hvalid t ht)
+    obtain ⟨c1, c2, _⟩ := hv.1 _ (hin t ht)
+    obtain ⟨g, v, n⟩ := t
+    obtain ⟨h1, h2⟩ := (hTmem g v n).mp ht
+    refine ⟨by rw [i2]; exact hio1 (v, n) h1, a2 (v, n) h1, c1, ?_⟩
+    intro u hu
+    rw [d2] at hu
+    obtain ⟨hu1, hu2⟩ := (d1 g (n, u)).mp hu
+    have hl := lookup_of_mem_nodup (hok.keys_nodup g) hu1
+    rcases c2 u hl with rfl | hR
+    · exact hu2 (List.mem_map.mpr ⟨(g, u, n), ht, rfl⟩)
+    · obtain ⟨q, hq, rfl⟩ := List.mem_map.mp hR
+      obtain ⟨hq1, hq2⟩ := List.mem_filter.mp hq
+      exact hu2 (List.mem_map.mpr ⟨(g, q.1, q.2), (hTmem g q.1 q.2).mpr ⟨hq1, by simpa using hq2⟩, rfl⟩)
+  have hinj3 : ∀ a ∈ T, ∀ b ∈ T, a.1 = b.1 → a.2.2 = b.2.2 → a.2.1 = b.2.1 := by
+    intro a ha b hb hg hn
+    have hb' := hin b hb
+    rw [← hg] at hb'
+    exact validateLoop_targets (hvalid a ha) _ (hin a ha) _ hb' hn
+  obtain ⟨w3, e3, ok3, v3, n3, i3, o3, d3⟩ := addAll_spec T ok2 hpre3 hTnd hinj3
+  rw [e1, e2, e3]
+  refine ⟨rfl, ?_, ?_, n3.trans (n2.trans n1), ?_, ok3, ?_⟩
+  · intro p hp
+    show w3.vname p.1 = some p.2
+    rw [v3]; exact a2 p ((hmem' p).mpr hp)
+  · intro u hu
+    show w3.vname u = w.vname u
+    rw [v3, o2 u, v1]
+    intro hu'
+    obtain ⟨p, hp, rfl⟩ := List.mem_map.mp hu'
+    exact hu (List.mem_map.mpr ⟨p, (hmem' p).mp hp, rfl⟩)
+  · show w3.initOf = w.initOf
+    funext u
+    by_cases hu : u ∈ T.map (·.2.1)
+    · obtain ⟨t, ht, rfl⟩ := List.mem_map.mp hu
+      rw [i3 t ht]
+      obtain ⟨g, v, n⟩ := t
+      exact ((hTmem g v n).mp ht).2.symm
+    · rw [o3 u hu, i2, i1 u, if_neg hu]
+  · intro g u
+    show u ∈ (w3.dicts g).map (·.2) ↔ u ∈ (w.dicts g).map (·.2)
+    simp only [List.mem_map]
+    constructor
+    · rintro ⟨e, he, rfl⟩
+      rcases (d3 g e).mp he with he | ⟨t, ht, rfl, rfl⟩
+      · rw [d2] at he
+        exact ⟨e, ((d1 g e).mp he).1, rfl⟩
+      · obtain ⟨g', v, n⟩ := t
+        obtain ⟨k, hk⟩ := hok.complete v g' ((hTmem g' v n).mp ht).2
+        exact ⟨(k, v), hk, rfl⟩
+    · rintro ⟨e, he, rfl⟩
+      by_cases hu : e.2 ∈ T.map (·.2.1)
+      · obtain ⟨t, ht, htv⟩ := List.mem_map.mp hu
+        obtain ⟨g', v, n⟩ := t
+        simp only at htv
+        have hg : g' = g := by
+          have h1 := ((hTmem g' v n).mp ht).2
+          have h2 := (hok.key_name g e.1 e.2 (by simpa using he)).2.2
+          rw [← htv, h1] at h2
+          exact Option.some.inj h2
+        exact ⟨(n, v), (d3 g (n, v)).mpr (Or.inr ⟨(g', v, n), ht, hg, rfl⟩), htv⟩
+      · exact ⟨e, (d3 g e).mpr (Or.inl (by rw [d2]; exact (d1 g e).mpr ⟨he, hu⟩)), rfl⟩
+
+
+theorem renameValues_eq (w : World) (pairs : List (Nat × String)) :
+    renameValues w pairs = match dedupPairs pairs [] with
+      | none => (w, true)
+      | some ordered =>
+        if !validateAll w (groupByGraph w.initOf ordered) then (w, true) else applyRename w ordered := rfl
+
 /-- **`rename_values` is all-or-nothing** (on a world whose initializers are keyed by names): it
 either raises and returns the very same world, or it does not raise and then every requested value
 carries its target name, no other name changed, `is_initializer`/graph links are as before, every
@@ -445,7 +579,7 @@ theorem renameValues_spec (w : World) (pairs : List (Nat × String)) (hok : Init
         ∧ (renameValues w pairs).1.initOf = w.initOf
         ∧ InitsOk (renameValues w pairs).1
         ∧ ∀ g u, u ∈ (renameValues w pairs).1.inits g ↔ u ∈ w.inits g) := by
-  unfold renameValues
+  rw [renameValues_eq]
   cases hd : dedupPairs pairs [] with
   | none => exact ⟨fun _ => rfl, fun h => (by cases h)⟩
   | some ordered =>
@@ -457,119 +591,322 @@ theorem renameValues_spec (w : World) (pairs : List (Nat × String)) (hok : Init
       exact ⟨fun _ => rfl, fun h => (by cases h)⟩
     have : ¬ ((!validateAll w (groupByGraph w.initOf ordered)) = true) := by simp [hval]
     rw [if_neg this]
-    -- the deduplicated assignment
-    obtain ⟨hnd, hmem⟩ := dedupPairs_spec pairs [] ordered hd (by simp)
+    obtain ⟨h0, h1⟩ := applyRename_spec w pairs ordered hok hd hval
+    exact ⟨fun h => (by rw [h0] at h; cases h), fun _ => h1⟩
+
+
+/-! ### the backing tensors: rename first, undo on refusal -/
+
+theorem upd_upd_same {α : Type} (f : Nat → α) (i : Nat) (x y : α) : upd (upd f i x) i y = upd f i y := by
+  funext j; simp only [upd]; split <;> rfl
+
+theorem renTensor_some_iff (w : TWorld) (p : Nat × String) (t : Nat) :
+    renTensor w p = some t ↔ (w.constOf p.1 = some t ∧ w.vname p.1 ≠ some p.2) := by
+  unfold renTensor
+  cases hc : w.constOf p.1 with
+  | none => simp
+  | some t' =>
+    by_cases hn : w.vname p.1 = some p.2
+    · simp [hn]
+    · simp [hn]
+
+/-- when the loop raises, the undo list restores the tensor names it started from -/
+theorem tensorLoop_raise (w : TWorld) (tn0 : Nat → Option String) : ∀ (ps : List (Nat × String))
+    (tn : Nat → Option String) (undo : List (Nat × Option String)), undoAll undo tn = tn0 →
+    (tensorLoop w ps tn undo).2 = true → (tensorLoop w ps tn undo).1 = tn0 := by
+  intro ps
+  induction ps with
+  | nil => intro tn undo _ h; simp [tensorLoop] at h
+  | cons p ps ih =>
+    intro tn undo hu h
+    simp only [tensorLoop] at h ⊢
+    cases hr : renTensor w p with
+    | none => simp only [hr] at h ⊢; exact ih _ _ hu h
+    | some t =>
+      simp only [hr] at h ⊢
+      by_cases hf : w.frozen t = true
+      · simp only [hf, if_true]; exact hu
+      · simp only [hf, if_false] at h ⊢
+        refine ih _ _ ?_ h
+        simp only [undoAll, upd_upd_same, upd_same]
+        exact hu
+
+/-- when the loop does not raise it performed exactly the assignments of `tensorAssign` -/
+theorem tensorLoop_ok (w : TWorld) : ∀ (ps : List (Nat × String)) (tn : Nat → Option String)
+    (undo : List (Nat × Option String)), (tensorLoop w ps tn undo).2 = false →
+    (tensorLoop w ps tn undo).1 = tensorAssign w ps tn := by
+  intro ps
+  induction ps with
+  | nil => intro tn undo _; rfl
+  | cons p ps ih =>
+    intro tn undo h
+    simp only [tensorLoop, tensorAssign] at h ⊢
+    cases hr : renTensor w p with
+    | none => simp only [hr] at h ⊢; exact ih _ _ h
+    | some t =>
+      simp only [hr] at h ⊢
+      by_cases hf : w.frozen t = true
+      · simp [hf] at h
+      · simp only [hf, if_false] at h ⊢
+        exact ih _ _ h
+
+theorem tensorLoop_noraise (w : TWorld) : ∀ (ps : List (Nat × String)) (tn : Nat → Option String)
+    (undo : List (Nat × Option String)),
+    (∀ p ∈ ps, ∀ t, w.constOf p.1 = some t → w.vname p.1 ≠ some p.2 → w.frozen t = false) →
+    (tensorLoop w ps tn undo).2 = false := by
+  intro ps
+  induction ps with
+  | nil => intro tn undo _; rfl
+  | cons p ps ih =>
+    intro tn undo h
+    have hrest := fun q hq => h q (List.mem_cons_of_mem _ hq)
+    simp only [tensorLoop]
+    cases hr : renTensor w p with
+    | none => exact ih _ _ hrest
+    | some t =>
+      obtain ⟨h1, h2⟩ := (renTensor_some_iff w p t).mp hr
+      have := h p List.mem_cons_self t h1 h2
+      simp only [this, Bool.false_eq_true, if_false]
+      exact ih _ _ hrest
+
+/-- what the assignments do to one tensor `t` when all pairs that touch it agree on the target -/
+theorem tensorAssign_spec (w : TWorld) (t : Nat) (n : String) : ∀ (ps : List (Nat × String)) (tn : Nat → Option String),
+    (∀ q ∈ ps, renTensor w q = some t → q.2 = n) →
+    (tensorAssign w ps tn t = some n ∧ ∃ q ∈ ps, renTensor w q = some t)
+    ∨ (tensorAssign w ps tn t = tn t ∧ ∀ q ∈ ps, renTensor w q ≠ some t) := by
+  intro ps
+  induction ps with
+  | nil => intro tn _; exact Or.inr ⟨rfl, fun q hq => by simp at hq⟩
+  | cons p ps ih =>
+    intro tn h
+    have hrest := fun q hq => h q (List.mem_cons_of_mem _ hq)
+    simp only [tensorAssign]
+    cases hr : renTensor w p with
+    | none =>
+      dsimp only
+      rcases ih tn hrest with ⟨a, q, hq, b⟩ | ⟨a, b⟩
+      · exact Or.inl ⟨a, q, List.mem_cons_of_mem _ hq, b⟩
+      · refine Or.inr ⟨a, ?_⟩
+        intro q hq
+        rcases List.mem_cons.mp hq with rfl | hq
+        · rw [hr]; simp
+        · exact b q hq
+    | some t' =>
+      dsimp only
+      by_cases htt : t' = t
+      · subst htt
+        have hm : p.2 = n := h p List.mem_cons_self hr
+        rcases ih (upd tn t' (some p.2)) hrest with ⟨a, q, hq, b⟩ | ⟨a, b⟩
+        · exact Or.inl ⟨a, q, List.mem_cons_of_mem _ hq, b⟩
+        · exact Or.inl ⟨by rw [a, upd_eq, hm], p, List.mem_cons_self, hr⟩
+      · rcases ih (upd tn t' (some p.2)) hrest with ⟨a, q, hq, b⟩ | ⟨a, b⟩
+        · exact Or.inl ⟨a, q, List.mem_cons_of_mem _ hq, b⟩
+        · refine Or.inr ⟨by rw [a, upd_ne _ _ (Ne.symm htt)], ?_⟩
+          intro q hq
+          rcases List.mem_cons.mp hq with rfl | hq
+          · rw [hr]; simpa using htt
+          · exact b q hq
+
+theorem tensorAssign_congr (w : TWorld) : ∀ (ps : List (Nat × String)) (tn tn' : Nat → Option String) (t : Nat),
+    (tn t = tn' t) → tensorAssign w ps tn t = tensorAssign w ps tn' t := by
+  intro ps
+  induction ps with
+  | nil => intro tn tn' t h; exact h
+  | cons p ps ih =>
+    intro tn tn' t h
+    simp only [tensorAssign]
+    cases hr : renTensor w p with
+    | none => exact ih _ _ _ h
+    | some t' =>
+      apply ih
+      by_cases htt : t = t'
+      · subst htt; simp
+      · rw [upd_ne _ _ htt, upd_ne _ _ htt]; exact h
+
+/-! ### when `rename_values` succeeds -/
+
+theorem dedupPairs_complete : ∀ (pairs acc : List (Nat × String)),
+    (∀ p ∈ pairs, ∀ q ∈ pairs, p.1 = q.1 → p.2 = q.2) → (∀ p ∈ pairs, ∀ q ∈ acc, p.1 = q.1 → p.2 = q.2) →
+    ∃ o, dedupPairs pairs acc = some o := by
+  intro pairs
+  induction pairs with
+  | nil => intro acc _ _; exact ⟨_, rfl⟩
+  | cons p rest ih =>
+    intro acc h1 h2
+    obtain ⟨v, n⟩ := p
+    simp only [dedupPairs]
+    have h1' := fun a ha b hb => h1 a (List.mem_cons_of_mem _ ha) b (List.mem_cons_of_mem _ hb)
+    split
+    · rename_i n' hl
+      have : n = n' := h2 (v, n) List.mem_cons_self (v, n') (lookupN_some_mem hl) rfl
+      subst this
+      simp only [bne_self_eq_false, Bool.false_eq_true, if_false]
+      exact ih acc h1' (fun a ha b hb => h2 a (List.mem_cons_of_mem _ ha) b hb)
+    · refine ih _ h1' ?_
+      intro a ha b hb hab
+      rcases List.mem_cons.mp hb with rfl | hb
+      · exact h1 a (List.mem_cons_of_mem _ ha) (v, n) List.mem_cons_self hab
+      · exact h2 a (List.mem_cons_of_mem _ ha) b hb hab
+
+theorem validateLoop_complete (d : List (String × Nat)) (R : List Nat) :
+    ∀ (ps : List (Nat × String)) (seenT : List (String × Nat)),
+      (∀ p ∈ ps, p.2 ≠ "" ∧ (∀ ex, d.lookup p.2 = some ex → ex = p.1 ∨ ex ∈ R)
+          ∧ (∀ e, seenT.lookup p.2 = some e → e = p.1)) →
+      ps.Pairwise (fun p q => p.2 = q.2 → p.1 = q.1) → validateLoop d R ps seenT = true := by
+  intro ps
+  induction ps with
+  | nil => intro _ _ _; rfl
+  | cons p ps ih =>
+    intro seenT h hp
+    obtain ⟨v, n⟩ := p
+    obtain ⟨c1, c2, c3⟩ := h (v, n) List.mem_cons_self
+    rw [List.pairwise_cons] at hp
+    simp only [validateLoop]
+    have e1 : (n == "") = false := by simpa using c1
+    have e2 : isOther (seenT.lookup n) v = false := by
+      cases hl : seenT.lookup n with
+      | none => rfl
+      | some e => simp [isOther, c3 e hl]
+    have e3 : isOutside (d.lookup n) v R = false := by
+      cases hl : d.lookup n with
+      | none => rfl
+      | some ex =>
+        rcases c2 ex hl with rfl | hR
+        · simp [isOutside]
+        · simp [isOutside, hR]
+    simp only [e1, e2, e3, Bool.false_eq_true, if_false]
+    refine ih _ ?_ hp.2
+    intro q hq
+    obtain ⟨a, b, c⟩ := h q (List.mem_cons_of_mem _ hq)
+    refine ⟨a, b, ?_⟩
+    intro e he
+    simp only [List.lookup_cons] at he
+    by_cases hqn : q.2 = n
+    · simp only [hqn, beq_self_eq_true, Option.some.injEq] at he
+      rw [← he]; exact (hp.1 q hq hqn.symm)
+    · have : (q.2 == n) = false := by simpa using hqn
+      simp only [this] at he
+      exact c e he
+
+
+theorem validateAll_complete (w : World) (ordered : List (Nat × String))
+    (hne : ∀ p ∈ ordered, w.initOf p.1 ≠ none → p.2 ≠ "")
+    (hdist : ∀ p ∈ ordered, ∀ q ∈ ordered, w.initOf p.1 ≠ none → w.initOf p.1 = w.initOf q.1 → p.2 = q.2 → p.1 = q.1)
+    (hout : ∀ p ∈ ordered, ∀ g, w.initOf p.1 = some g → ∀ u, (p.2, u) ∈ w.dicts g → u = p.1 ∨ (u ∈ ordered.map (·.1) ∧ w.initOf u = some g)) :
+    validateAll w (groupByGraph w.initOf ordered) = true := by
+  simp only [validateAll, List.all_eq_true]
+  intro gp hgp
+  simp only [groupByGraph, List.mem_map, List.mem_eraseDups, List.mem_filterMap] at hgp
+  obtain ⟨g, _, rfl⟩ := hgp
+  simp only
+  have hmemf : ∀ p, p ∈ ordered.filter (fun p => w.initOf p.1 == some g) ↔ (p ∈ ordered ∧ w.initOf p.1 = some g) := by
+    intro p; simp [List.mem_filter]
+  apply validateLoop_complete
+  · intro p hp
+    obtain ⟨hp1, hp2⟩ := (hmemf p).mp hp
+    refine ⟨hne p hp1 (by rw [hp2]; simp), ?_, fun e he => by simp at he⟩
+    intro ex hex
+    rcases hout p hp1 g hp2 ex (lookup_some_mem hex) with h | ⟨h1, h2⟩
+    · exact Or.inl h
+    · right
+      obtain ⟨q, hq, rfl⟩ := List.mem_map.mp h1
+      exact List.mem_map.mpr ⟨q, (hmemf q).mpr ⟨hq, h2⟩, rfl⟩
+  · have : ∀ p ∈ ordered.filter (fun p => w.initOf p.1 == some g), ∀ q ∈ ordered.filter (fun p => w.initOf p.1 == some g),
+        p.2 = q.2 → p.1 = q.1 := by
+      intro p hp q hq he
+      obtain ⟨hp1, hp2⟩ := (hmemf p).mp hp
+      obtain ⟨hq1, hq2⟩ := (hmemf q).mp hq
+      exact hdist p hp1 q hq1 (by rw [hp2]; simp) (by rw [hp2, hq2]) he
+    exact List.pairwise_of_forall_mem_list (fun p hp q hq => this p hp q hq)
+
+/-- **`rename_values` with backing tensors is all-or-nothing**, and when it goes through every
+tensor that backs renamed values carries the target name (when the values sharing it agree) -/
+theorem renameValuesT_spec (w : TWorld) (pairs : List (Nat × String)) (hok : InitsOk w.toWorld) :
+    ((renameValuesT w pairs).2 = true → (renameValuesT w pairs).1 = w)
+    ∧ ((renameValuesT w pairs).2 = false →
+        (∀ p ∈ pairs, (renameValuesT w pairs).1.vname p.1 = some p.2)
+        ∧ (∀ u, u ∉ pairs.map (·.1) → (renameValuesT w pairs).1.vname u = w.vname u)
+        ∧ (renameValuesT w pairs).1.nname = w.nname
+        ∧ (renameValuesT w pairs).1.initOf = w.initOf
+        ∧ InitsOk (renameValuesT w pairs).1.toWorld
+        ∧ (∀ g u, u ∈ (renameValuesT w pairs).1.toWorld.inits g ↔ u ∈ w.toWorld.inits g)
+        ∧ (renameValuesT w pairs).1.constOf = w.constOf
+        ∧ (∀ p ∈ pairs, ∀ t, renTensor w p = some t → (∀ q ∈ pairs, renTensor w q = some t → q.2 = p.2) →
+              (renameValuesT w pairs).1.tname t = some p.2)
+        ∧ (∀ t, (∀ q ∈ pairs, renTensor w q ≠ some t) → (renameValuesT w pairs).1.tname t = w.tname t)) := by
+  unfold renameValuesT
+  cases hd : dedupPairs pairs [] with
+  | none => exact ⟨fun _ => rfl, fun h => (by cases h)⟩
+  | some ordered =>
+    simp only
+    by_cases hval : validateAll w.toWorld (groupByGraph w.initOf ordered) = true
+    swap
+    · have : (!validateAll w.toWorld (groupByGraph w.initOf ordered)) = true := by simpa using hval
+      rw [if_pos this]
+      exact ⟨fun _ => rfl, fun h => (by cases h)⟩
+    have : ¬ ((!validateAll w.toWorld (groupByGraph w.initOf ordered)) = true) := by simp [hval]
+    rw [if_neg this]
+    obtain ⟨_, hmem⟩ := dedupPairs_spec pairs [] ordered hd (by simp)
     have hmem' : ∀ p, p ∈ ordered ↔ p ∈ pairs := fun p => by rw [hmem p]; simp
-    -- the renamed initializers
-    generalize hT : initTriples (groupByGraph w.initOf ordered) = T
-    have hTmem : ∀ g v n, (g, v, n) ∈ T ↔ ((v, n) ∈ ordered ∧ w.initOf v = some g) := by
-      intro g v n; rw [← hT]; exact mem_initTriples
-    have hTnd : (T.map (·.2.1)).Nodup := by rw [← hT]; exact initTriples_nodup hnd
-    -- what validation established
-    have hvalid : ∀ t ∈ T, validateLoop (w.dicts t.1)
-        ((ordered.filter (fun p => w.initOf p.1 == some t.1)).map (·.1))
-        (ordered.filter (fun p => w.initOf p.1 == some t.1)) [] = true := by
-      intro t ht
-      obtain ⟨g, v, n⟩ := t
-      obtain ⟨h1, h2⟩ := (hTmem g v n).mp ht
-      have := List.all_eq_true.mp hval _ (group_mem h1 h2)
-      simpa using this
-    have hin : ∀ t ∈ T, (t.2.1, t.2.2) ∈ ordered.filter (fun p => w.initOf p.1 == some t.1) := by
-      intro t ht
-      obtain ⟨g, v, n⟩ := t
-      obtain ⟨h1, h2⟩ := (hTmem g v n).mp ht
-      exact List.mem_filter.mpr ⟨h1, by simpa using h2⟩
-    -- phase 1
-    obtain ⟨w1, e1, ok1, v1, n1, i1, d1⟩ := popAll_spec T hok
-      (fun t ht => by obtain ⟨g, v, n⟩ := t; exact ((hTmem g v n).mp ht).2) hTnd
-    -- phase 2
-    have hio1 : ∀ p ∈ ordered, w1.initOf p.1 = none := by
-      intro p hp
-      rw [i1 p.1]
-      split
-      · rfl
-      · rename_i hnot
-        cases hio : w.initOf p.1 with
-        | none => rfl
-        | some g =>
-          exfalso; apply hnot
-          exact List.mem_map.mpr ⟨(g, p.1, p.2), (hTmem g p.1 p.2).mpr ⟨hp, hio⟩, rfl⟩
-    obtain ⟨w2, e2, n2, i2, d2, a2, o2⟩ := setAll_spec ordered hio1 hnd
-    have ok2 : InitsOk w2 := by
-      refine ⟨?_, fun g => by rw [d2]; exact ok1.keys_nodup g, fun v g hv => by rw [d2]; exact ok1.complete v g (i2 ▸ hv)⟩
-      intro g k u hm
-      rw [d2] at hm
-      have hk := ok1.key_name g k u hm
-      have hu : u ∉ ordered.map (·.1) := by
-        intro hu
-        obtain ⟨p, hp, rfl⟩ := List.mem_map.mp hu
-        rw [hio1 p hp] at hk; exact absurd hk.2.2 (by simp)
-      exact ⟨by rw [o2 u hu]; exact hk.1, hk.2.1, by rw [i2]; exact hk.2.2⟩
-    -- phase 3
-    have hpre3 : ∀ t ∈ T, w2.initOf t.2.1 = none ∧ w2.vname t.2.1 = some t.2.2 ∧ t.2.2 ≠ ""
-        ∧ ∀ u, (t.2.2, u) ∉ w2.dicts t.1 := by
-      intro t ht
-      have hv := validateLoop_spec _ _ _ _ (hvalid t ht)
-      obtain ⟨c1, c2, _⟩ := hv.1 _ (hin t ht)
-      obtain ⟨g, v, n⟩ := t
-      obtain ⟨h1, h2⟩ := (hTmem g v n).mp ht
-      refine ⟨by rw [i2]; exact hio1 (v, n) h1, a2 (v, n) h1, c1, ?_⟩
-      intro u hu
-      rw [d2] at hu
-      obtain ⟨hu1, hu2⟩ := (d1 g (n, u)).mp hu
-      have hl := lookup_of_mem_nodup (hok.keys_nodup g) hu1
-      rcases c2 u hl with rfl | hR
-      · exact hu2 (List.mem_map.mpr ⟨(g, u, n), ht, rfl⟩)
-      · obtain ⟨q, hq, rfl⟩ := List.mem_map.mp hR
-        obtain ⟨hq1, hq2⟩ := List.mem_filter.mp hq
-        exact hu2 (List.mem_map.mpr ⟨(g, q.1, q.2), (hTmem g q.1 q.2).mpr ⟨hq1, by simpa using hq2⟩, rfl⟩)
-    have hinj3 : ∀ a ∈ T, ∀ b ∈ T, a.1 = b.1 → a.2.2 = b.2.2 → a.2.1 = b.2.1 := by
-      intro a ha b hb hg hn
-      have hb' := hin b hb
-      rw [← hg] at hb'
-      exact validateLoop_targets (hvalid a ha) _ (hin a ha) _ hb' hn
-    obtain ⟨w3, e3, ok3, v3, n3, i3, o3, d3⟩ := addAll_spec T ok2 hpre3 hTnd hinj3
-    rw [e1, e2, e3]
-    refine ⟨fun h => (by cases h), fun _ => ⟨?_, ?_, n3.trans (n2.trans n1), ?_, ok3, ?_⟩⟩
-    · intro p hp
-      show w3.vname p.1 = some p.2
-      rw [v3]; exact a2 p ((hmem' p).mpr hp)
-    · intro u hu
-      show w3.vname u = w.vname u
-      rw [v3, o2 u, v1]
-      intro hu'
-      obtain ⟨p, hp, rfl⟩ := List.mem_map.mp hu'
-      exact hu (List.mem_map.mpr ⟨p, (hmem' p).mp hp, rfl⟩)
-    · show w3.initOf = w.initOf
-      funext u
-      by_cases hu : u ∈ T.map (·.2.1)
-      · obtain ⟨t, ht, rfl⟩ := List.mem_map.mp hu
-        rw [i3 t ht]
-        obtain ⟨g, v, n⟩ := t
-        exact ((hTmem g v n).mp ht).2.symm
-      · rw [o3 u hu, i2, i1 u, if_neg hu]
-    · intro g u
-      show u ∈ (w3.dicts g).map (·.2) ↔ u ∈ (w.dicts g).map (·.2)
-      simp only [List.mem_map]
-      constructor
-      · rintro ⟨e, he, rfl⟩
-        rcases (d3 g e).mp he with he | ⟨t, ht, rfl, rfl⟩
-        · rw [d2] at he
-          exact ⟨e, ((d1 g e).mp he).1, rfl⟩
-        · obtain ⟨g', v, n⟩ := t
-          obtain ⟨k, hk⟩ := hok.complete v g' ((hTmem g' v n).mp ht).2
-          exact ⟨(k, v), hk, rfl⟩
-      · rintro ⟨e, he, rfl⟩
-        by_cases hu : e.2 ∈ T.map (·.2.1)
-        · obtain ⟨t, ht, htv⟩ := List.mem_map.mp hu
-          obtain ⟨g', v, n⟩ := t
-          simp only at htv
-          have hg : g' = g := by
-            have h1 := ((hTmem g' v n).mp ht).2
-            have h2 := (hok.key_name g e.1 e.2 (by simpa using he)).2.2
-            rw [← htv, h1] at h2
-            exact Option.some.inj h2
-          exact ⟨(n, v), (d3 g (n, v)).mpr (Or.inr ⟨(g', v, n), ht, hg, rfl⟩), htv⟩
-        · exact ⟨e, (d3 g e).mpr (Or.inl (by rw [d2]; exact (d1 g e).mpr ⟨he, hu⟩)), rfl⟩
+    by_cases htl : (tensorLoop w ordered w.tname []).2 = true
+    · rw [if_pos htl]
+      have := tensorLoop_raise w w.tname ordered w.tname [] rfl htl
+      refine ⟨fun _ => ?_, fun h => (by cases h)⟩
+      show { w with tname := (tensorLoop w ordered w.tname []).1 } = w
+      rw [this]
+    · rw [if_neg htl]
+      have htl' : (tensorLoop w ordered w.tname []).2 = false := by simpa using htl
+      have htn := tensorLoop_ok w ordered w.tname [] htl'
+      obtain ⟨h0, h1, h2, h3, h4, h5, h6⟩ := applyRename_spec w.toWorld pairs ordered hok hd hval
+      refine ⟨fun h => (by rw [h0] at h; cases h), fun _ => ⟨h1, h2, h3, h4, h5, h6, rfl, ?_, ?_⟩⟩
+      · intro p hp t hr hall
+        show tensorAssign w ordered (tensorLoop w ordered w.tname []).1 t = some p.2
+        have hall' : ∀ q ∈ ordered, renTensor w q = some t → q.2 = p.2 := fun q hq => hall q ((hmem' q).mp hq)
+        rcases tensorAssign_spec w t p.2 ordered (tensorLoop w ordered w.tname []).1 hall' with ⟨a, _⟩ | ⟨_, b⟩
+        · exact a
+        · exact absurd hr (b p ((hmem' p).mpr hp))
+      · intro t hno
+        show tensorAssign w ordered (tensorLoop w ordered w.tname []).1 t = w.tname t
+        have hno' : ∀ q ∈ ordered, renTensor w q = some t → q.2 = "" :=
+          fun q hq h => absurd h (hno q ((hmem' q).mp hq))
+        rw [htn]
+        rcases tensorAssign_spec w t "" ordered (tensorAssign w ordered w.tname) hno' with ⟨_, q, hq, b⟩ | ⟨a, _⟩
+        · exact absurd b (hno q ((hmem' q).mp hq))
+        · rw [a]
+          rcases tensorAssign_spec w t "" ordered w.tname hno' with ⟨_, q, hq, b⟩ | ⟨a', _⟩
+          · exact absurd b (hno q ((hmem' q).mp hq))
+          · exact a'
+
+/-- **`rename_values` succeeds** whenever nothing forces it to refuse: no value is given two
+different targets, initializers get non-empty targets that are pairwise different per graph and do
+not hit an initializer outside the renamed set, and no tensor refuses its new name.  Swaps, cycles
+and arbitrary permutations of initializer names satisfy this. -/
+theorem renameValuesT_succeeds (w : TWorld) (pairs : List (Nat × String)) (hok : InitsOk w.toWorld)
+    (hcons : ∀ p ∈ pairs, ∀ q ∈ pairs, p.1 = q.1 → p.2 = q.2)
+    (hne : ∀ p ∈ pairs, w.initOf p.1 ≠ none → p.2 ≠ "")
+    (hdist : ∀ p ∈ pairs, ∀ q ∈ pairs, w.initOf p.1 ≠ none → w.initOf p.1 = w.initOf q.1 → p.2 = q.2 → p.1 = q.1)
+    (hout : ∀ p ∈ pairs, ∀ g, w.initOf p.1 = some g → ∀ u, (p.2, u) ∈ w.dicts g → u ∈ pairs.map (·.1))
+    (hfz : ∀ p ∈ pairs, ∀ t, renTensor w p = some t → w.frozen t = false) :
+    (renameValuesT w pairs).2 = false := by
+  obtain ⟨ordered, hd⟩ := dedupPairs_complete pairs [] hcons (fun _ _ q hq => by simp at hq)
+  obtain ⟨_, hmem⟩ := dedupPairs_spec pairs [] ordered hd (by simp)
+  have hmem' : ∀ p, p ∈ ordered ↔ p ∈ pairs := fun p => by rw [hmem p]; simp
+  have hval : validateAll w.toWorld (groupByGraph w.initOf ordered) = true := by
+    apply validateAll_complete
+    · exact fun p hp => hne p ((hmem' p).mp hp)
+    · exact fun p hp q hq => hdist p ((hmem' p).mp hp) q ((hmem' q).mp hq)
+    · intro p hp g hg u hu
+      right
+      have h1 := hout p ((hmem' p).mp hp) g hg u hu
+      obtain ⟨q, hq, rfl⟩ := List.mem_map.mp h1
+      exact ⟨List.mem_map.mpr ⟨q, (hmem' q).mpr hq, rfl⟩, (hok.key_name g p.2 q.1 hu).2.2⟩
+  have htl : (tensorLoop w ordered w.tname []).2 = false := by
+    apply tensorLoop_noraise
+    intro p hp t h1 h2
+    exact hfz p ((hmem' p).mp hp) t ((renTensor_some_iff w p t).mpr ⟨h1, h2⟩)
+  obtain ⟨h0, _⟩ := applyRename_spec w.toWorld pairs ordered hok hd hval
+  unfold renameValuesT
+  simp only [hd, hval, Bool.not_true, Bool.false_eq_true, if_false, htl]
+  exact h0
 
 end IrVerif.Names
